@@ -490,6 +490,32 @@ func analysisDiff(o *Oracle, oc *Outcome, r *solveRun, entry string) {
 			oc.Fail("corr", "analyze-invariant", entry, "the solver state at a conflict does not meet the hypotheses of GS.Analyze.analyze_sound_cnf (%s: trailInv reasonsCnf decisionsOk conflOk) on %s", inv, q)
 			return
 		}
+		// the sampled state is a state of the abstract trail machine GS.Trail (theorems reachable_inv,
+		// reachable_analyze_sound): replaying its trail as decide / propagate / fact operations must be
+		// accepted (every antecedent was unit when it was used) and end in a state on which the
+		// conflict is falsified
+		if oracleHasOp(o, "trail_run") {
+			d := dedupTrail(a)
+			var ops []string
+			for j, l := range d.Trail {
+				switch {
+				case d.Reasons[j] != nil:
+					ops = append(ops, fmt.Sprintf("2 %d %s", l, encInts(d.Reasons[j].Lits)))
+				case d.Levels[j] == 1 && d.Assumed[j]:
+					ops = append(ops, fmt.Sprintf("6 %d", l))
+				case d.Levels[j] == 1:
+					ops = append(ops, fmt.Sprintf("5 %d", l))
+				default:
+					ops = append(ops, fmt.Sprintf("1 %d", l))
+				}
+			}
+			r := o.Ask(fmt.Sprintf("trail_run | %s | %s", strings.Join(ops, " ; "), encInts(a.Conflict.Lits)))
+			oc.Corr++
+			if !strings.HasPrefix(r, fmt.Sprintf("state %d |", a.Lvl)) || !strings.Contains(r, "| inv 1 | falsified 1 ") {
+				oc.Fail("corr", "trail-machine", entry, "the solver state at conflict %d is not a run of the abstract trail machine GS.Trail ending in a falsified conflict: %s (ops %s)", i, r, strings.Join(ops, " ; "))
+				return
+			}
+		}
 		if len(a.Learned) > 2 {
 			level := map[int]int{}
 			for j, l := range a.Trail {
@@ -520,6 +546,9 @@ func oracleHasOp(o *Oracle, op string) bool {
 	// a known op called without arguments also answers bad-op: probe with a harmless full query
 	if op == "analyze" {
 		opProbe[op] = o.Ask("analyze 2 | 1 | -1 2 0 | 0") != "bad-op"
+	}
+	if op == "trail_run" {
+		opProbe[op] = o.Ask("trail_run | 1 1 | ") != "bad-op"
 	}
 	return opProbe[op]
 }
